@@ -257,7 +257,9 @@ CallOK(s, cv, e) ==
          [] e.op = "read"  -> ReadOK(s, cv, c, o)
          [] e.op = "write" /\ e.T = "r" -> TRUE
          [] e.op = "write" -> WriteOK(s, cv, c, o) /\ StreamLenOK(s, e)
-         [] e.op = "seek"  -> SeekOK(s, cv, c, o)
+         \* (C09: a seek that fails leaves the file contents as they were, whatever the handle -- also the RDWR handles of block
+         \*  encodings that the model otherwise follows with widened clauses)
+         [] e.op = "seek"  -> SeekOK(s, cv, c, o) /\ ((e.ret = -1 /\ ~FaultOn(e) /\ ~CfgRelax) => Get(e, "sc", 0) = 0)
          [] e.op = "trunc" -> TruncOK([s EXCEPT !.relax = s.relax \/ s.route = "vio"], cv, c, o)
          [] e.op = "cmd"   -> CmdOK(s, cv, c, o)
          [] e.op = "calc"  -> CalcOK(s, cv, c, o) /\ e.st.nd = s.nd /\ e.st.nf = s.nf      \* position and normalisation as they were
@@ -457,6 +459,9 @@ Obs ==
       [] e.op = "chexp" -> /\ aux' = [aux EXCEPT !.chexp = (<<e.dl, e.seed, e.plen>> :> e.dig) @@ @]
                            /\ UNCHANGED <<hs, cont, files, ncid, closed, nclose, canon>>
       [] e.op \in {"fault", "fmtcheck", "fmtenum", "chk"} -> UNCHANGED <<hs, cont, files, ncid, closed, nclose, canon, aux>>
+      \* the descriptor under the handle has been closed behind the library's back: from now on its I/O fails for real (C15)
+      [] e.op = "fdclose" -> /\ hs' = [hs EXCEPT ![e.h] = IF @.life = "open" THEN [@ EXCEPT !.relax = TRUE] ELSE @]
+                            /\ UNCHANGED <<cont, files, ncid, closed, nclose, canon, aux>>
       [] OTHER ->
             IF e.h < 0 \/ ~HasState(e) THEN (e.op = "errq" => ErrQOK(e)) /\ UNCHANGED <<hs, cont, files, ncid, closed, nclose, canon, aux>>
             ELSE LET s == IF hs[e.h].life = "open" THEN [hs[e.h] EXCEPT !.relax = @ \/ FaultOn(e)] ELSE hs[e.h] IN
